@@ -37,7 +37,7 @@ P = {
             "constraint is violated on purpose in a share), http/https, 4 hosts, 7 queries, 0-3 header names in random casing with repeated "
             "lines, an optional Cookie line (plain, quoted, spaces, commas, odd separators, invalid names), optional Content-Type + body "
             "(json/form/yaml/text/unknown, valid, invalid and empty bodies).  The same request goes to all three entry points.  Corpus "
-            "(23 cases, the witnesses of C13-F1..F7) first.  Non-trivial = a rule matched and its pipeline reads the view in a condition "
+            "(23 cases, the witnesses of C13-F1..F8) first.  Non-trivial = a rule matched and its pipeline reads the view in a condition "
             "or a template; distinct by hash of (rule, request).",
     "anchors": ["internal/handler/requestcontext/request_context.go", "internal/handler/decision/request_context.go",
                 "internal/handler/proxy/request_context.go", "internal/handler/envoyextauth/grpcv3/request_context.go",
@@ -79,12 +79,17 @@ P = {
                   "with the model inside Coq; the property predicate (three observations equal) is evaluated on the observations.",
     "level_note": "Trusted: Coq kernel/vm_compute; the correspondence harness incl. the Envoy encoding of a request and the projection "
                   "of the hand-over; body decoders are oracles; rule lookup is an arbitrary function (C02/C03); CEL/text-template reduced "
-                  "to `read == const` and echo.  Open findings with guards: C13-F1 (Envoy context rebuilds the view: captures lost; fix "
-                  "candidate fixes/C13-F1.diff, model parameter fixed_F1, the driver detects the variant of the tree by a sentinel request "
-                  "and findings/C13.json decides whether the pinned behaviour is tolerated), F2 (Header(name) not canonicalised under "
-                  "Envoy), F3 (multi-valued pipeline header: first value vs joined), F4 (escaped path in URL.Path, RawPath empty, "
-                  "encoded-slash check never fires under Envoy), F5 (cookie reading/writing: net/http vs plain split), F6 (Host through "
-                  "Header()/Headers()), F7 (Body of a body-less request).  Not covered: X-Forwarded-* on the HTTP side (C09), the "
+                  "to `read == const` and echo.  The model carries one flag per finding that has a repair (record `fixes`); every theorem "
+                  "holds for every combination and the guard of a repaired finding is off.  C13-F1 (Envoy context rebuilt the view on "
+                  "every Request(): captures lost) is FIXED by fix: b2286d8: the evaluator expects the repaired variant (check_f1fixed), "
+                  "no guard is honoured for it, the pinned behaviour is kept as C13_F1_pinned_refuted.  Open findings with guards: F2 "
+                  "(Header(name) not canonicalised under Envoy), F3 (multi-valued pipeline header: first value vs joined), F4 (escaped "
+                  "path in URL.Path, RawPath empty, the allow_encoded_slashes: off check never fires under Envoy), F6 (Header(\"Host\")), "
+                  "F7 (Body of a body-less request) - each with a candidate repair fixes/C13-Fx.diff that passes the unedited unit tests; "
+                  "the driver detects by sentinel requests which of them the tree contains and the evaluator runs that variant, while "
+                  "findings/C13.json alone decides whether a pinned behaviour is tolerated (checked: each diff alone and all together "
+                  "keep the check green and remove exactly their finding) -, F5 (cookie reading/writing: net/http vs plain split) and "
+                  "F8 (Headers() lacks the Host key under Envoy) without repair.  Not covered: X-Forwarded-* on the HTTP side (C09), the "
                   "upstream URL and header pass-through of the proxy (C15), multi-hop client address lists.",
     "assumptions": [
         "a logical request is well-formed (wf_lreqb, checked on every case): header names are tokens, no Host/X-Forwarded-*/Forwarded "
